@@ -131,6 +131,15 @@ func c08Cases(tier string, seed uint64) []fw.Case {
 			cs = append(cs, fw.MkCase("errors", &c))
 		}
 	}
+	// answers arriving after the instance's context was cancelled: 1..4 Do calls in a row on the request that was
+	// still open (sequentially from one goroutine, or each from its own)
+	for ndo := 1; ndo <= 4; ndo++ {
+		for _, conc := range []bool{false, true} {
+			c := c08Case{Kind: "after-cancel", NDo: ndo, Conc: conc, Reps: 1}
+			c.Name = fmt.Sprintf("after-cancel/n%d-conc%v", ndo, conc)
+			cs = append(cs, fw.MkCase("after-cancel", &c))
+		}
+	}
 	// what a successful answer stores, over the value kinds of the catalogue
 	nv := len(c16Values())
 	for _, route := range []string{"results", "objects"} {
@@ -193,6 +202,80 @@ func c08Payload(c *c08Case, marker int) []bpmn.DoOption {
 		opts = append(opts, bpmn.DoWithObjects(obj))
 	}
 	return opts
+}
+
+// c08AfterCancel: the request of T is open, the instance's context is cancelled, then NDo answers arrive. None of
+// them may block its caller and none has an effect (no further request, no stored result).
+func c08AfterCancel(c *c08Case, env *fw.Env, v *fw.V) {
+	defs, _, err := step.Parse(c08Graph())
+	if err != nil {
+		v.Inconclusive("parse", "%v", err)
+		return
+	}
+	perturb.Off()
+	in, err := drive.New(env.Label, defs, drive.Opts{ExtraSubs: 1, Vars: map[string]any{"r1": 0}})
+	if err != nil {
+		v.Violate("new-process-error", "error", "%v", err)
+		return
+	}
+	defer in.Cancel()
+	quiet := func(what string) (quiesce.Result, bool) {
+		q := in.Quiesce(step.Watchdog)
+		v.Add("qpoints", 1)
+		if !q.Quiescent {
+			v.Inconclusive("watchdog", "no quiescent point %s: %v", what, quiesce.Summary(q.Gs))
+			return q, false
+		}
+		return q, true
+	}
+	if err := in.Start(); err != nil {
+		v.Violate("start-error", "error", "%v", err)
+		return
+	}
+	if _, ok := quiet("after start"); !ok {
+		return
+	}
+	p := in.Pending()
+	if len(p) != 1 {
+		v.Inconclusive("setup", "pending %v", in.PendingActs())
+		return
+	}
+	req := p[0]
+	in.Cancel()
+	if _, ok := quiet("after cancellation"); !ok {
+		return
+	}
+	var calls []*drive.Call
+	if c.Conc {
+		for k := 0; k < c.NDo; k++ {
+			k := k
+			calls = append(calls, in.Go("LateDo", func() error { req.Trace.Do(bpmn.DoWithResults(map[string]any{"r1": 100 + k})); return nil }))
+		}
+	} else {
+		calls = append(calls, in.Go("LateDo", func() error {
+			for k := 0; k < c.NDo; k++ {
+				req.Trace.Do(bpmn.DoWithResults(map[string]any{"r1": 100 + k}))
+			}
+			return nil
+		}))
+	}
+	q, ok := quiet("after the late answers")
+	if !ok {
+		return
+	}
+	for _, cl := range calls {
+		if d, _ := cl.Done(); !d {
+			site := ""
+			if gs := quiesce.DriverIn(q.Gs, "taskTrace).Do"); len(gs) > 0 {
+				site = gs[0].TopRepoFrame()
+			}
+			v.Violate("do-blocked", "after-cancel", "%d Do call(s) on a request whose instance was cancelled: a call never returned (blocked at %s)", c.NDo, site)
+			return
+		}
+	}
+	if n := len(in.Reqs()); n != 1 {
+		v.Violate("late-do-effect", "after-cancel", "%d requests in total after answers that arrived after the cancellation (expected 1)", n)
+	}
 }
 
 func c08FirstWins(c *c08Case, env *fw.Env, v *fw.V) {
@@ -612,7 +695,9 @@ func init() {
 			}
 			for i := 0; i < cc.Reps && !v.Violated(); i++ {
 				fw.Rep(env, i, func(env *fw.Env) {
-					if cc.Kind == "values" {
+					if cc.Kind == "after-cancel" {
+						c08AfterCancel(&cc, env, v)
+					} else if cc.Kind == "values" {
 						tmp := fw.NewV(fw.Case{})
 						c16Engine(&c16Case{Kind: "engine", Route: cc.Route, From: cc.From, To: cc.To}, env, tmp)
 						for _, f := range tmp.Findings {
@@ -634,7 +719,7 @@ func init() {
 			v.Nontrivial = true
 			return v
 		},
-		Rule:        "answer histories per request: 1..3 Do calls x sequential / concurrent behind a barrier x payload {results, data objects, both} x names {declared, undeclared, mixed} x hooks off/on (concurrent ones repeated 30/300 times), checked with a porcupine write-once-register model over the Do call/return history and the observed effective marker, plus blocked-caller census, declared-only storage, downstream visibility (gateway branch, next task's properties and data inputs) and late Do; a catalogue of ~100 values of every kind (integer widths, floats, strings, booleans, byte slices, nested maps / slices / structs, pointers, nil) answered as declared result and as declared data output, read back in canonical form from the variables and the next task's data inputs; error histories: handler {none, skip, exit, retry n=0..3} x success on attempt 0..4 x extra Do; retry answers whose budget differs from answer to answer (all budget sequences of length 2..3 over 0..3; the k-th failing answer with budget b re-requests only while k-1 < b) x success attempt, followed by a second always-failing task on the same token (requested 1..budget+1 times); all cases non-trivial; distinct = descriptor hash",
+		Rule:        "answer histories per request: 1..3 Do calls x sequential / concurrent behind a barrier x payload {results, data objects, both} x names {declared, undeclared, mixed} x hooks off/on (concurrent ones repeated 30/300 times), checked with a porcupine write-once-register model over the Do call/return history and the observed effective marker, plus blocked-caller census, declared-only storage, downstream visibility (gateway branch, next task's properties and data inputs) and late Do; 1..4 answers arriving after the instance's context was cancelled (none may block); a catalogue of ~100 values of every kind (integer widths, floats, strings, booleans, byte slices, nested maps / slices / structs, pointers, nil) answered as declared result and as declared data output, read back in canonical form from the variables and the next task's data inputs; error histories: handler {none, skip, exit, retry n=0..3} x success on attempt 0..4 x extra Do; retry answers whose budget differs from answer to answer (all budget sequences of length 2..3 over 0..3; the k-th failing answer with budget b re-requests only while k-1 < b) x success attempt, followed by a second always-failing task on the same token (requested 1..budget+1 times); all cases non-trivial; distinct = descriptor hash",
 		Exhaustive:  func(string) bool { return true },
 		Assumptions: []string{"each Do carries a unique marker for a declared field so the effective answer identifies the call that won"},
 	})
